@@ -215,9 +215,17 @@ pub fn fam_pairs(op: &str, win: bool, pairs: &[(Vec<u8>, Vec<u8>)], out: &mut Ve
 }
 
 pub fn fam_cross(op: &str, win: bool, xs: &[Vec<u8>], ys: &[Vec<u8>], out: &mut Vec<String>) {
-    for a in xs {
-        for b in ys {
-            out.push(format!("{} {} {} {}", op, e(win), hex(a), hex(b)));
+    fam_cross_t("thorough", op, win, xs, ys, out)
+}
+
+/// the cross product, thinned in the quick tier (`cross_keep`)
+pub fn fam_cross_t(tier: &str, op: &str, win: bool, xs: &[Vec<u8>], ys: &[Vec<u8>], out: &mut Vec<String>) {
+    let keep = cross_keep(tier, xs.len(), ys.len(), 300, 150);
+    for (i, a) in xs.iter().enumerate() {
+        for (j, b) in ys.iter().enumerate() {
+            if keep(i, j) {
+                out.push(format!("{} {} {} {}", op, e(win), hex(a), hex(b)));
+            }
         }
     }
 }
@@ -518,7 +526,7 @@ pub fn gen(prop: &str, tier: &str, seed: u64) -> Vec<String> {
             for win in [false, true] {
                 let b = bases(win, tier, seed);
                 let a = dom_args(win, tier, seed);
-                fam_cross("pushc", win, &b, &a, &mut out);
+                fam_cross_t(tier, "pushc", win, &b, &a, &mut out);
             }
             if prop == "C17" {
                 for win in [false, true] {
@@ -571,7 +579,7 @@ pub fn gen(prop: &str, tier: &str, seed: u64) -> Vec<String> {
         "C08" => {
             let b = bases(true, tier, seed);
             let a = dom_args(true, tier, seed);
-            fam_cross("push", true, &b, &a, &mut out);
+            fam_cross_t(tier, "push", true, &b, &a, &mut out);
             out.extend(histories(true, tier, seed, false, true));
         }
         "C09" => {
@@ -597,6 +605,17 @@ pub fn gen(prop: &str, tier: &str, seed: u64) -> Vec<String> {
                 let d = if win { dom_win(tier, seed) } else { dom_unix(tier, seed) };
                 fam_unary("norm", win, &d, &mut out);
                 fam_unary("norm", win, &norm_extra(win, tier, seed), &mut out);
+                // absolutize against the real current directory (carried in the op line for the model)
+                #[cfg(all(feature = "std", unix))]
+                {
+                    use std::os::unix::ffi::OsStrExt;
+                    if let Ok(cwd) = std::env::current_dir() {
+                        let c = hex(cwd.as_os_str().as_bytes());
+                        for s in d.iter().step_by(if t { 1 } else { 3 }) {
+                            out.push(format!("abs {} {} {}", e(win), c, hex(s)));
+                        }
+                    }
+                }
             }
         }
         "C12" => {
@@ -605,7 +624,7 @@ pub fn gen(prop: &str, tier: &str, seed: u64) -> Vec<String> {
                 fam_unary("fname", win, &d, &mut out);
                 let b = bases(win, tier, seed);
                 let n = names(tier);
-                fam_cross("setfn", win, &b, &n, &mut out);
+                fam_cross_t(tier, "setfn", win, &b, &n, &mut out);
                 // names as single-component paths: stem/extension split
                 let mut nm: Vec<Vec<u8>> = strings_b(b".ab", if t { 7 } else { 6 });
                 nm.extend(strings_b(b".a\xc3\xa9", 4));
@@ -779,7 +798,8 @@ pub fn gen(prop: &str, tier: &str, seed: u64) -> Vec<String> {
             }
             // a slice of every other property's quick domain; both builds run all of it
             for p in ["C01", "C02", "C03", "C04", "C05", "C06", "C07", "C08", "C09", "C10", "C11", "C12", "C13", "C14", "C15", "C16", "C17"] {
-                let v = gen(p, "quick", seed);
+                // (`abs` exists with the `std` feature only)
+                let v: Vec<String> = gen(p, "quick", seed).into_iter().filter(|l| !l.starts_with("abs ")).collect();
                 let step = if t { 3 } else { 17 };
                 out.extend(v.into_iter().step_by(step));
             }
